@@ -88,16 +88,37 @@ def spec_case(o):
         ",".join(muts) if muts else "-", rate, o["seed"])
 
 
+def rate_spelling(x, style):
+    """the same number written the ways a user may write it"""
+    if style % 4 == 0:
+        return repr(x)
+    forms = {0.0: ["0", "0.00", "0e0"], 1.0: ["1", "1.000", "1e0"], 0.5: [".5", "5e-1", "0.50"], 0.25: [".25", "2.5e-1", "0.250"],
+             0.1: [".1", "1e-1", "0.10"], 0.9: [".9", "9e-1", "0.90"]}
+    return forms.get(x, [repr(x)] * 3)[style % 4 - 1]
+
+
 def cli_args(o):
-    a = []
-    if o.get("protocol") is not None: a += ["--protocol", str(o["protocol"])]
-    if o.get("seed") is not None: a += ["--seed", str(o["seed"])]
-    if "min" in o: a += ["--min-opcodes", str(o["min"])]
-    if "max" in o: a += ["--max-opcodes", str(o["max"])]
-    if o.get("unsafe"): a += ["--unsafe-mutations"]
-    if o.get("ext"): a += ["--allow-ext"]
-    if o.get("buf"): a += ["--allow-buffer"]
-    if "rate" in o: a += ["--mutation-rate", repr(o["rate"])]
+    """the documented options in the spellings clap accepts: `--opt value`, `--opt=value`, the short flags `-p` / `-s`,
+    the flags in another order (o["style"] selects; all spellings denote the same configuration)"""
+    st = o.get("style", 0)
+    def opt(name, val, short=None):
+        if st % 3 == 1:
+            return ["%s=%s" % (name, val)]
+        if st % 3 == 2 and short:
+            return [short, str(val)]
+        return [name, str(val)]
+    parts = []
+    if o.get("protocol") is not None: parts.append(opt("--protocol", o["protocol"], "-p"))
+    if o.get("seed") is not None: parts.append(opt("--seed", o["seed"]))
+    if "min" in o: parts.append(opt("--min-opcodes", o["min"]))
+    if "max" in o: parts.append(opt("--max-opcodes", o["max"]))
+    if o.get("unsafe"): parts.append(["--unsafe-mutations"])
+    if o.get("ext"): parts.append(["--allow-ext"])
+    if o.get("buf"): parts.append(["--allow-buffer"])
+    if "rate" in o: parts.append(opt("--mutation-rate", rate_spelling(o["rate"], st)))
+    if st % 2 == 1:
+        parts.reverse()
+    a = [x for part in parts for x in part]
     if o.get("mutators"):
         # `--mutators` takes one or more values; it goes last before `--` so that it cannot swallow
         # the positional FILE
@@ -128,7 +149,7 @@ def sample_seed(rnd):
 
 
 def sample_options(rnd):
-    o = dict(seed=sample_seed(rnd))
+    o = dict(seed=sample_seed(rnd), style=rnd.randrange(0, 12))
     if rnd.random() < 0.6: o["protocol"] = rnd.randrange(0, 6)
     if rnd.random() < 0.5:
         o["min"] = rnd.choice([0, 5, 30, 60, 100]); o["max"] = rnd.choice([0, 5, 40, 120, 300])
@@ -136,7 +157,7 @@ def sample_options(rnd):
     if r < 0.25: o["mutators"] = ["all"]
     elif r < 0.6: o["mutators"] = rnd.sample(MUTS, rnd.randrange(1, 4))
     if rnd.random() < 0.4: o["unsafe"] = True
-    if rnd.random() < 0.4: o["rate"] = rnd.choice([0.0, 0.5, 1.0, 0.25])
+    if rnd.random() < 0.4: o["rate"] = rnd.choice([0.0, 0.5, 1.0, 0.25, 0.1, 0.9])
     if rnd.random() < 0.4: o["ext"] = True
     if rnd.random() < 0.4: o["buf"] = True
     return o
@@ -224,8 +245,9 @@ def run_batch(binary, n, rnd, out):
                     os.makedirs(d)
                     for i in range(0, samples, 2):
                         open(os.path.join(d, "%d.pkl" % i), "wb").write(b"\xee" * 200000)
-                rc, so, se = sh([binary, "--dir", d, "--samples", str(samples)] + cli_args(o),
-                                env=dict(ENV, RAYON_NUM_THREADS=str(threads)))
+                head = [binary, "-d", d, "-s", str(samples)] if o.get("style", 0) % 3 == 2 else \
+                       ([binary, "--dir=" + d, "--samples=%d" % samples] if o.get("style", 0) % 3 == 1 else [binary, "--dir", d, "--samples", str(samples)])
+                rc, so, se = sh(head + cli_args(o), env=dict(ENV, RAYON_NUM_THREADS=str(threads)))
                 names = sorted(os.listdir(d)) if os.path.isdir(d) else []
                 want_names = sorted("%d.pkl" % i for i in range(samples))
                 want = lib_bytes(spec_case(o))
